@@ -242,7 +242,7 @@ class ObjMachine(Machine):
         if r < 0.68:
             return dict(op="interleave", t=t, arg=s.randint(0, 99))
         kind = s.choice(["platform", "platform", "port_nr", "protocol_nr", "type", "resequence",
-                         "sort", "group", "ungroup", "platform_same", "type_std"])
+                         "sort", "group", "ungroup", "platform_same", "type_std", "group_coarse"])
         return dict(op="transform", t=t, kind=kind, arg=s.randint(0, 99))
 
     # ------------------------------------------------------------- apply
@@ -725,7 +725,7 @@ class ObjMachine(Machine):
             "type_std": cname in ("Acl", "AceGroup", "Ace", "Remark") and plat == "ios",
             "resequence": cname in ("Acl", "AceGroup", "AddrGroup"),
             "sort": cname in ("Acl", "AceGroup", "AddrGroup"),
-            "group": cname == "Acl", "ungroup": cname == "Acl",
+            "group": cname == "Acl", "ungroup": cname == "Acl", "group_coarse": cname == "Acl",
         }[kind]
         if not applicable:
             return "noop"
@@ -769,6 +769,9 @@ class ObjMachine(Machine):
                 x.sort()
             elif kind == "group":
                 x.group(gen.HEAD)
+            elif kind == "group_coarse":
+                # fewer headings match: one new block takes the entries of several old ones
+                x.group(gen.HEAD + "H" + str(1 + op["arg"] % 3))
             elif kind == "ungroup":
                 x.ungroup()
         except DOCUMENTED as ex:
